@@ -182,7 +182,7 @@ PROPS = {
     },
     "C07": {
         "lean_targets": ["Pep508.Theorems.C07", "Pep508.Theorems.C06", "Pep508.Theorems.C17", "Pep508.Theorems.C18"],
-        "theorems": ["Pep508.C07.name_accepted", "Pep508.C07.leading_ws_changes_diagnosis", "Pep508.C18.parse_url_is_rule", "Pep508.C06.requirement_never_panics",
+        "theorems": ["Pep508.C07.name_accepted", "Pep508.C07.leading_ws_same_diagnosis", "Pep508.C18.parse_url_is_rule", "Pep508.C06.requirement_never_panics",
                      "Pep508.C06.requirement_external_calls", "Pep508.parseMarkers_total", "Pep508.C17.chain_skips_dropped"],
         "suites": [{"name": "req", "args": ["C07"]}, {"name": "mparse", "args": ["C07"]}],
         "rule": "grammar derivations (name x optional extras x none | bare specifiers | parenthesised specifiers | @ URL x optional marker) over pools of names, extras, PEP 440 "
